@@ -11,6 +11,9 @@ pub fn dispatch(ctx: &Ctx, rep: &mut Report) {
     if ctx.engine.as_deref() == Some("hist") {
         return hist::run(ctx, rep);
     }
+    if ctx.engine.as_deref() == Some("emplace") {
+        return emplace::run(ctx, rep);
+    }
     match ctx.prop.as_str() {
         "C01" | "C02" => bytes_in::run(ctx, rep),
         "C16" => scalars::run(ctx, rep),
